@@ -66,12 +66,29 @@ def first_stmt(shape):
     return None
 
 
-def gen_files(rng, shape, directives, empties=None):
+# Spellings of the file directive that the UNCHANGED tree treats as `atlas:txmode <mode>` (established by
+# observation, 2026-09-27, both directions: `none` under --tx-mode file keeps + records the prefix of a failing
+# file; `file` under --tx-mode none rolls the failing file back). NOT accepted (observed, hence not generated):
+# upper case `-- ATLAS:TXMODE`, block comment `/* atlas:txmode … */`, tab after `--`, a directive without the
+# empty line after the comment group (statement directive), `#` comments (break the SQL), upper-case argument
+# (rejected: unknown txmode "NONE").
+SPELLINGS = {
+    "canon": "-- atlas:txmode %s\n",
+    "nospace": "--atlas:txmode %s\n",
+    "text-before": "-- note, atlas:txmode %s\n",
+    "blanks": "--    atlas:txmode %s\n",
+    "argblanks": "-- atlas:txmode   %s\n",
+    "trailing": "-- atlas:txmode %s  \n",
+    "second-line": "-- a comment line first\n-- atlas:txmode %s\n",
+}
+
+
+def gen_files(rng, shape, directives, empties=None, checkpoints=None, journal_at=None, spellings=None):
     """shape: statements per file (0 = a statement-less file: comment only / directive only / blank /
     zero bytes, see `empties`: file index -> kind); directives: per file None|'none'|'file'. Returns the
     GOOD directory as a list of {"name","version","desc","directive","stmts":[text…],"kinds":[…]}."""
     files = []
-    first = first_stmt(shape)
+    first = tuple(journal_at) if journal_at else first_stmt(shape)
     for f, n in enumerate(shape):
         stmts, kinds = [], []
         for s in range(n):
@@ -85,10 +102,15 @@ def gen_files(rng, shape, directives, empties=None):
                 k = "ins"
             stmts.append(good_stmt(k, f, s))
             kinds.append(k)
-        files.append({"name": "%d_f%d.sql" % (f + 1, f + 1), "version": str(f + 1), "desc": "f%d" % (f + 1),
+        ver = "%0*d" % (3 if len(shape) >= 10 else 1, f + 1)  # versions are compared as strings
+        files.append({"name": "%s_f%d.sql" % (ver, f + 1), "version": ver, "desc": "f%d" % (f + 1),
                       "directive": directives[f], "stmts": stmts, "kinds": kinds})
         if n == 0:
             files[-1]["empty"] = (empties or {}).get(f) or (empties or {}).get(str(f)) or "comment"
+        if f in (checkpoints or []):
+            files[-1]["checkpoint"] = True
+        if spellings and spellings[f]:
+            files[-1]["spelling"] = spellings[f]
     return files
 
 
@@ -165,7 +187,11 @@ def render(files):
     """name -> text. A file directive needs an empty line after it to be a file (not statement) directive."""
     out = {}
     for f in files:
-        head = "-- atlas:txmode %s\n\n" % f["directive"] if f["directive"] else ""
+        head = "-- atlas:checkpoint\n" if f.get("checkpoint") else ""
+        if f["directive"]:
+            head += SPELLINGS[f.get("spelling") or "canon"] % f["directive"]
+        if head:
+            head += "\n"  # the empty line makes the comment group a FILE directive group
         body = "".join(st + ";\n" for st in f["stmts"])
         if not f["stmts"] and f.get("empty"):
             body = EMPTY_TEXT[f["empty"]]
